@@ -17,7 +17,8 @@
    Not proved: several arguments in sequence; xml() hops (mxj is an oracle of the model; they are
    checked on the implementation only). *)
 Require Import V.Base.Prelude V.KflText.Macro V.KflText.RJv V.KflText.Redact V.KflText.RedactSpec
-  V.KflText.RJson V.KflText.RedactProofs V.KflText.RedactWitness.
+  V.KflText.RJson V.KflText.RedactProofs V.KflText.RedactMulti V.KflText.RedactWitness.
+From Coq Require Import Permutation.
 
 Theorem C15_one_path :
   forall (parse : bytes -> option jv) (b64d : bytes -> option bytes),
@@ -62,3 +63,52 @@ Theorem C15_example :
              /\ sub parse b64d r' [SKey (by_ [97]%N); SIdx 0; SHop; SKey (by_ [100]%N)] = sub parse b64d wit_record [SKey (by_ [97]%N); SIdx 0; SHop; SKey (by_ [100]%N)]
              /\ sub parse b64d r' [SKey (by_ [97]%N); SIdx 1] = Some (JStr doc2).
 Proof. exact example_redaction. Qed.
+
+(* ---- several paths in sequence (what redact does with several arguments that have no hops) ----
+   D = the locations the paths denote in the ORIGINAL record; overlapping paths, any fragments *)
+Theorem C15_several_paths :
+  forall (parse : bytes -> option jv) (b64d : bytes -> option bytes),
+  decode parse b64d REDACTED = None ->
+  forall (fss : list (list frag)) v, wf v ->
+    let v' := fold_left (fun acc fs => setm MARK fs acc) fss v in
+    let D := fun L => exists fs, In fs fss /\ Denotes fs v L in
+    marker_at_denoted parse b64d D v'
+    /\ frame parse b64d D v v'
+    /\ leaves_from_original parse b64d v v'
+    /\ no_location_added parse b64d v v'.
+Proof. exact several_paths_clauses. Qed.
+
+(* the result is the record with every denoted subtree replaced by the marker ... *)
+Theorem C15_several_paths_value :
+  forall (fss : list (list frag)) v,
+    fold_left (fun acc fs => setm MARK fs acc) fss v
+    = mark (flat_map (fun fs => rev (map fst (jmatches fs v))) fss) v.
+Proof. exact setm_all_value. Qed.
+
+(* ... so the order of the paths changes nothing, not even below the denoted locations *)
+Theorem C15_several_paths_order_value :
+  forall (fss fss' : list (list frag)) v, Permutation fss fss' ->
+    fold_left (fun acc fs => setm MARK fs acc) fss v = fold_left (fun acc fs => setm MARK fs acc) fss' v.
+Proof. exact setm_all_perm. Qed.
+
+Theorem C15_several_paths_any_order :
+  forall (parse : bytes -> option jv) (b64d : bytes -> option bytes),
+  decode parse b64d REDACTED = None ->
+  forall (fss fss' : list (list frag)) v, wf v -> Permutation fss fss' ->
+    let v' := fold_left (fun acc fs => setm MARK fs acc) fss' v in
+    let D := fun L => exists fs, In fs fss /\ Denotes fs v L in
+    marker_at_denoted parse b64d D v'
+    /\ frame parse b64d D v v'
+    /\ leaves_from_original parse b64d v v'
+    /\ no_location_added parse b64d v v'.
+Proof. exact several_paths_any_order. Qed.
+
+(* non-vacuity: redact("a", "a.b", "d"), overlapping and disjoint paths, both orders *)
+Theorem C15_several_paths_example :
+  wf multi_record
+  /\ paths_denote multi_paths multi_record [SKey ka]
+  /\ paths_denote multi_paths multi_record [SKey ka; SKey kb]
+  /\ paths_denote multi_paths multi_record [SKey kd]
+  /\ setm_all multi_paths multi_record = JObj [(ka, MARK); (kd, MARK); (ke, zq 52)]
+  /\ setm_all (rev multi_paths) multi_record = JObj [(ka, MARK); (kd, MARK); (ke, zq 52)].
+Proof. exact example_several_paths. Qed.
